@@ -21,7 +21,7 @@ import vcheck
 # Syntax/Fuel.v (each call consumes >= 1 byte, or happens at EOF where at most one call per open construct + c are made).
 C_CONST = 6
 # loop iterations per byte: calibrated on the unchanged tree (max observed 20.5/byte on nested a[a[..]]=1), not derived.
-LOOP_A, LOOP_B = 32, 96
+LOOP_A, LOOP_B = 60, 96
 
 
 def build_instrumented(ctx):
@@ -155,9 +155,16 @@ def run(ctx):
         if "family" not in s:
             continue
         ctx.count(4)
+        if s.get("hang") or s.get("crash"):
+            ctx.fail("hang" if s.get("hang") else "crash_unrecoverable",
+                     {"family": s["family"], "closed": s["closed"], "lang": s["lang"], "entry": s["entry"]}, None, s.get("hang") or s.get("crash"))
+            continue
         if s.get("panic"):
+            pk = None
+            if s["entry"] == "Arithmetic" and s.get("with_err") and not s["panic"].startswith("parse:"):
+                pk = "arithmetic_partial_tree_with_error"   # Post ran on the node Arithmetic returned with its error
             ctx.fail("panic_on_large_input", {"family": s["family"], "closed": s["closed"], "lang": s["lang"], "entry": s["entry"],
-                                              "sizes": s["sizes"]}, None, s["panic"])
+                                              "sizes": s["sizes"]}, pk, s["panic"])
         per = [st / float(sz) for st, sz in zip(s["steps"], s["sizes"])]
         if per[0] > 0 and max(per) > 1.15 * per[0] + 0.5:
             smism.append({"family": s["family"], "steps_per_byte": [round(x, 2) for x in per], "sizes": s["sizes"]})
